@@ -66,7 +66,7 @@ def parse_race_reports():
                     continue
                 if s.startswith('/') or s.startswith('_'):  # file:line
                     continue
-                cur.append(s.split('(')[0])
+                cur.append(re.sub(r'\(\)$', '', s))
             if cur:
                 stacks.append(cur)
             access = [st for st in stacks if st and st[0].startswith(('Read at', 'Write at', 'Previous read', 'Previous write', 'Atomic', 'Previous atomic'))][:2]
